@@ -481,6 +481,20 @@ def env_dtc_code(edd, siblings, sib_params):
     raise Unsupported("env-data-desc without DTC parameter")
 
 
+def key_physical(kd, bits):
+    """physical value of a LENGTH-KEY (= the bit length of its user) as the key DOP can carry it: bits -> internal -> physical
+    (identical compu: bits itself; LINEAR: the nearest expressible length); None if there is no inverse image"""
+    try:
+        x = to_internal(kd, bits)
+        if x is None:
+            return None
+        if isinstance(kd.dct, D.Std) and raw_of_int(kd.dct.bt, kd.dct.enc, kd.dct.bitlen, x) is None:
+            return None
+        return to_physical(kd, x)
+    except (Unsupported, ZeroDivisionError, OverflowError, TypeError, ValueError):
+        return None
+
+
 def users_of_key(params, key):
     return [p for p in params if p.dop is not None and isinstance(p.dop, D.SimpleDop) and isinstance(p.dop.dct, D.ParamLen) and p.dop.dct.key == key]
 
@@ -525,8 +539,10 @@ def gen_params_value(rng, params):
                 u = users[0]
                 uv = out.get(u.name, u.default)
                 bits = derived_length_key(u.dop.dct, to_internal(u.dop, uv))
+                if key_physical(p.dop, bits) != bits:
+                    raise Unsupported("the length key cannot express the bit length of this value")
                 if rng.random() < 0.4:
-                    out[p.name] = to_physical(p.dop, bits)
+                    out[p.name] = bits
             else:
                 out[p.name] = gen_dop_value(rng, p.dop)
         elif p.type == "table-key":
@@ -626,7 +642,7 @@ def complete_params(params, value, trig=None):
                 out[p.name] = value[p.name]
             else:
                 u = users_of_key(params, p.name)[0]
-                out[p.name] = to_physical(p.dop, derived_length_key(u.dop.dct, to_internal(u.dop, value.get(u.name, u.default))))
+                out[p.name] = key_physical(p.dop, derived_length_key(u.dop.dct, to_internal(u.dop, value.get(u.name, u.default))))
         elif t == "table-key":
             if p.row is not None:
                 out[p.name] = p.row
